@@ -146,6 +146,27 @@ def skipper_tables(rep, rule, prog, cg):
             rep.ok(rule, key, 'index and count both advance by %d' % w, b.loc())
         else:
             rep.bad(rule, key, b.loc(), 'unchecked skipper arm %s advances the cursor by %s and reports %s; the binary width is %d' % (v, sorted(idx), sorted(ln), w))
+    # (e) the pending-container stack: an entry stands for all remaining elements of its container, so it is popped only when
+    # its remaining count has just reached zero (a bare pop after one element drops the rest of a list/set/map of structs)
+    pops = [cs for cs in b.calls() if cs.name == 'pop' and 'SmallVec' in cs.callee or (cs.name == 'pop' and 'Vec' in cs.callee)]
+    key = '%s|unchecked skipper stack pop' % rule
+    if not pops:
+        rep.anchor_missing(rule, 'pop of the pending-container stack in the unchecked skipper')
+    else:
+        badp = []
+        for cs in pops:
+            ok = False
+            for op, a, c, sbb, tb in b.comparisons_at(cs.bb):
+                if c is None:
+                    continue
+                if op == 'Eq' and c == ('const', 0) and strip_refs(strip_casts(a))[0] == 'field':      # `<top entry>.<remaining> == 0`
+                    ok = True
+            if not ok:
+                badp.append(cs.loc())
+        if badp:
+            rep.bad(rule, key, badp[0], 'the unchecked skipper pops a pending container without having counted it down to zero (%d of %d pop sites): after the first struct element of a list / set / map the rest of the container is parsed as fields of the enclosing struct' % (len(badp), len(pops)))
+        else:
+            rep.ok(rule, key, '%d pop site(s), each under `remaining == 0` of the top entry' % len(pops), pops[0].loc())
     # (c) map fast path needs both sides fixed
     key = '%s|unchecked skipper map fast path' % rule
     found = False
